@@ -59,11 +59,29 @@ def run(cx):
 def guarded_in(body, cfg, du, bb, writes_bbs):
     """is block `bb` reachable only through the false edge of an is_oneway() test (and unreachable from its true edge)"""
     guards = oneway_guard_edges(body, cfg, du)
-    if not guards: return False
-    falses = {f for _, f in guards}
-    dominated = bb not in cfg.reach(0, blocked_edges=falses)
-    leaks = any(bb in cfg.after(tr) for tr, _ in guards)
-    return dominated and not leaks
+    if guards:
+        falses = {f for _, f in guards}
+        dominated = bb not in cfg.reach(0, blocked_edges=falses)
+        leaks = any(bb in cfg.after(tr) for tr, _ in guards)
+        if dominated and not leaks: return True
+    return guarded_on_paths(body, cfg, du, bb)
+
+
+def guarded_on_paths(body, cfg, du, bb):
+    """the same, decided path by path: on every feasible path from the entry to `bb` some branch was taken because is_oneway()
+    returned false (the answer may travel through locals, a tuple that is matched on, or an enum computed from it)"""
+    if not any(t.callee.name == "is_oneway" for t in body.calls("=is_oneway")): return False
+    from vlib.cfg import enumerate_paths
+    from vlib.pathcond import literals
+    hit = [False]
+    paths = enumerate_paths(cfg, 0, lambda blk: blk.idx == bb or blk.term.kind == "return", du=du, on_limit=lambda: hit.__setitem__(0, True))
+    if hit[0]: return False
+    n = 0
+    for pth in paths:
+        if pth[-1] != bb: continue
+        n += 1
+        if not any(l.kind == "call" and l.obj.callee.name == "is_oneway" and l.truth is False for l in literals(body, pth)): return False
+    return n > 0
 
 
 def r1(cx):
